@@ -13,13 +13,14 @@ import (
 
 type MonC06 struct {
 	BaseMonitor
-	hist      map[*Node]map[int64]*NodeState
-	lastTS    map[string]uint64 // instance -> timestamp of its last snapshot
-	lastName  map[string]string
-	Checked   int
-	Prop      string // property to report under (C06, or C04 for the marker clause)
-	Markers   bool   // only check deletion markers (C04 clause b)
-	SkipRaced bool   // do not evaluate snapshots that hit the known txn-id reuse race
+	hist       map[*Node]map[int64]*NodeState
+	lastTS     map[string]uint64 // instance -> timestamp of its last snapshot
+	lastName   map[string]string
+	Checked    int
+	Prop       string // property to report under (C06, or C04 for the marker clause)
+	Markers    bool   // only check deletion markers (C04 clause b)
+	SkipRaced  bool   // do not evaluate snapshots that hit the known txn-id reuse race
+	unobserved map[string]bool
 }
 
 func (m *MonC06) prop() string {
@@ -43,6 +44,16 @@ func (m *MonC06) init(f *Fleet) {
 func (m *MonC06) NodeChanged(f *Fleet, n *Node, before, after *NodeState, actor Actor) {
 	m.init(f)
 	m.hist[n][after.LastTxnID] = after
+	if before != nil {
+		// several commits in one step (the sweeper commits once per DBI):
+		// the states in between were not observed
+		for id := before.LastTxnID + 1; id < after.LastTxnID; id++ {
+			if m.unobserved == nil {
+				m.unobserved = map[string]bool{}
+			}
+			m.unobserved[fmt.Sprintf("%s/%d", n.Name, id)] = true
+		}
+	}
 }
 
 func (m *MonC06) StepDone(f *Fleet, actor Actor) {
@@ -78,6 +89,10 @@ func (m *MonC06) BucketOp(f *Fleet, op *BucketOp) {
 	}
 	m.Checked++
 	st := m.hist[n][ref.Meta.LmdbTxnID]
+	if st == nil && m.unobserved[fmt.Sprintf("%s/%d", n.Name, ref.Meta.LmdbTxnID)] {
+		f.Sim.Probe("c06-claimed-txn-not-observed")
+		return
+	}
 	if st == nil {
 		f.Violate(Violation{P, "image-of-one-txn", "unknown-txn-id",
 			fmt.Sprintf("%s uploaded %s claiming LMDB transaction %d, but no such transaction was ever committed there", n.Name, op.Name, ref.Meta.LmdbTxnID)})
